@@ -32,8 +32,9 @@ ENUM_FULL = ENUM_TRIPLES * len(ENUM_POLICIES)
 SUBDOMAIN = (
     "all (ancestor, ours, theirs) triples over the 3 keys ('a',), ('dir','f'), ('dir','g') with each key "
     "absent / v1 / v2 on each side (3^9 = 19 683 triples) x the 5 policies {default, [add], [add,remove], "
-    "[add,change], [add,remove,change]} = 98 415 cases, each through _merge and merge(odb) in both "
-    "argument orders"
+    "[add,change], [add,remove,change]} = 98 415 (ordered triple, policy) pairs, each through _merge and "
+    "merge(odb); one executed case covers a triple and its mirror image (both argument orders), so "
+    "10 206 x 5 = 51 030 cases"
 )
 
 RULE = (
@@ -44,9 +45,10 @@ RULE = (
     "metadata styles, or merge(odb) on trees stored through Tree.add/digest/odb.add in a "
     "LocalHashFileDB / HashFileDB / memfs HashFileDB, optionally a legacy md5-dos2unix store, ancestor "
     "given as None or as a stored empty tree). Enumerated half: the finite sub-domain 3 keys x "
-    "{absent,v1,v2} per side, sharded over the workers (thorough: all 98 415 (triple, policy) pairs "
-    "through both routes; quick: policies default and [add,remove,change], merge(odb) on a fixed "
-    "eighth of the triples). Oracle: flat per-key rule (ours==theirs -> that; ours==ancestor -> theirs; "
+    "{absent,v1,v2} per side, sharded over the workers; a case runs both argument orders, so only pairs "
+    "ours<=theirs are generated (thorough: all 98 415 (ordered triple, policy) pairs through both routes; "
+    "quick: all ordered triples under the policies default and [add,remove,change], merge(odb) on a fixed "
+    "eighth of the cases). Oracle: flat per-key rule (ours==theirs -> that; ours==ancestor -> theirs; "
     "theirs==ancestor -> ours; else conflict): a call returns exactly the rule's listing or raises "
     "MergeError; any other exception, a success despite a conflict, a dropped / resurrected / overridden "
     "/ invented entry, two successful argument orders that disagree, a success that combines "
@@ -430,9 +432,12 @@ def run_case(case, ctx):
         classes = sorted(set(classes))
     counters = {}
     if case.get("enum"):
+        # both argument orders were executed: the case covers the ordered triple and its mirror image
+        n_ordered = 1 if case["ours"] == case["theirs"] else 2
         counters["enum_cases"] = 1
+        counters["enum_ordered_triples"] = n_ordered
         if case["enum"] == "full":
-            counters["enum_full_cases"] = 1
+            counters["enum_full_ordered_triples"] = n_ordered
     else:
         counters["random_cases"] = 1
     return Result(viols, nontrivial, classes, counters)
@@ -513,23 +518,31 @@ def _mix(n):
 
 
 def enum_cases(tier):
-    """The finite sub-domain in a fixed order: (index, case)."""
+    """The finite sub-domain in a fixed order: (index, case).
+
+    Every case runs both argument orders, so the ordered triple (anc, x, y) and its mirror image (anc, y, x)
+    are covered by one case: only the pairs x <= y (in enumeration order) are generated.
+    """
     policies = ENUM_POLICIES if tier == "thorough" else ENUM_QUICK_POLICIES
     sides = list(itertools.product(ENUM_VALS, repeat=len(ENUM_KEYS)))
     i = 0
     for pol in policies:
-        for n, (a, o, t) in enumerate(itertools.product(sides, repeat=3)):
-            h = _mix(n)
-            route = "both" if tier == "thorough" or h % 8 == 0 else "dict"
-            case = {"keys": ENUM_KEYS, "anc": list(a), "ours": list(o), "theirs": list(t), "policy": pol,
-                    "route": route, "meta_style": "loaded",
-                    "enum": "full" if tier == "thorough" else "slice"}
-            if route == "both":
-                case["store"] = STORES[1 + (h // 64) % 2] if (h // 8) % 8 == 0 else "mem"
-                case["legacy"] = False
-                case["anc_none"] = (h // 512) % 2 == 1
-            yield i, case
-            i += 1
+        n = 0
+        for a in sides:
+            for io, o in enumerate(sides):
+                for t in sides[io:]:
+                    h = _mix(n)
+                    route = "both" if tier == "thorough" or h % 8 == 0 else "dict"
+                    case = {"keys": ENUM_KEYS, "anc": list(a), "ours": list(o), "theirs": list(t),
+                            "policy": pol, "route": route, "meta_style": "loaded",
+                            "enum": "full" if tier == "thorough" else "slice"}
+                    if route == "both":
+                        case["store"] = STORES[1 + (h // 64) % 2] if (h // 8) % 8 == 0 else "mem"
+                        case["legacy"] = False
+                        case["anc_none"] = (h // 512) % 2 == 1
+                    yield i, case
+                    i += 1
+                    n += 1
 
 
 def run(ctx):
@@ -543,7 +556,7 @@ def run(ctx):
             ctx.exec_case(case, run_case)
     except Failure:
         return
-    ctx.run_given(cases(), run_case, ctx.n(quick=2500, thorough=30000))
+    ctx.run_given(cases(), run_case, ctx.n(quick=1250, thorough=30000))
 
 
 def replay(case, ctx):
@@ -552,11 +565,12 @@ def replay(case, ctx):
 
 def extra_coverage(cov):
     counters = cov.get("counters", {})
-    full = counters.get("enum_full_cases", 0)
+    full = counters.get("enum_full_ordered_triples", 0)
     exhaustive = bool(full == ENUM_FULL and not cov.get("skipped_over_budget"))
     return {
         "exhaustive": exhaustive,
         "exhaustive_subdomain": SUBDOMAIN,
         "enumerated_cases": counters.get("enum_cases", 0),
-        "enumerated_cases_expected_for_exhaustive": ENUM_FULL,
+        "enumerated_ordered_triple_policy_pairs": counters.get("enum_ordered_triples", 0),
+        "enumerated_ordered_triple_policy_pairs_needed_for_exhaustive": ENUM_FULL,
     }
